@@ -152,6 +152,14 @@ def _structure_returns(block, retvar, line):
                 return out, rr
             out.append(S('if', s.line, cond=s.cond, then=th, els=el))
             continue
+        if s.k == 'with' and any(t.k == 'return' for t in walk_stmts(s.body)):
+            wb, wr = _structure_returns(s.body, retvar, line)
+            if not wr:
+                raise NotInlinable('return on some paths of a with block')
+            d = dict(s.d)
+            d['body'] = wb
+            out.append(S('with', s.line, **d))
+            return out, True
         if s.k in ('for', 'foreach', 'while', 'loop', 'try', 'with', 'omp'):
             if any(t.k == 'return' for b in sub_blocks(s) for t in walk_stmts(b)):
                 raise NotInlinable('return inside %s' % s.k)
@@ -183,6 +191,58 @@ def _bind(params, defaults, call, self_arg=None):
             else:
                 raise NotInlinable('missing argument %s' % p)
     return env
+
+
+def _forward_result(body, use, rv):
+    """Tidy the expansion of `target = helper(...)`: when the helper ends in a single `return V`, write `target = V` instead of going through the result
+    variable; a tuple result assigned to a tuple target becomes one assignment per component, and a helper local that only carries a component to its
+    target is renamed to that target.  The statements mean the same; the rules then see the names of the calling function."""
+    if not body or rv is None:
+        return body + [use]
+    last = body[-1]
+    n_ret = sum(1 for t in walk_stmts(body) if t.k == 'assign' and t.target == rv)
+    if not (last.k == 'assign' and last.target == rv and n_ret == 1):
+        # several returns: when the result goes to a plain variable that the helper body does not mention, let the branches assign that variable directly
+        if use.k == 'assign' and use.target[0] == 'var' and use.d.get('aug') is None and use.value == rv:
+            mentioned = {x[1] for t in walk_stmts(body) for e in stmt_exprs(t) for x in walk_expr(e) if x[0] == 'var'}
+            reads = [1 for t in walk_stmts(body) for k_, e in enumerate(stmt_exprs(t)) for x in walk_expr(e) if x == rv and not (t.k == 'assign' and k_ == 0 and e == rv)]
+            if use.target[1] not in mentioned and not reads:
+                return _rename(body, {rv[1]: use.target})
+        return body + [use]
+    body = body[:-1]
+    V = last.value
+    if use.k != 'assign':
+        d = dict(use.d)
+        d['value' if use.k != 'decl' else 'init'] = V
+        return body + [S(use.k, use.line, **d)]
+    tgt = use.target
+    if tgt[0] == 'tuple' and V[0] == 'tuple' and len(tgt[1]) == len(V[1]) and all(t[0] == 'var' for t in tgt[1]):
+        pairs = list(zip(tgt[1], V[1]))
+    elif tgt[0] == 'var':
+        pairs = [(tgt, V)]
+    else:
+        return body + [S('assign', use.line, target=tgt, value=V, aug=None)]
+    mentioned = {x[1] for t in walk_stmts(body) for e in stmt_exprs(t) for x in walk_expr(e) if x[0] == 'var'}
+    out_tail = []
+    ren = {}
+    for t, v in pairs:
+        local = v[0] == 'var' and '@' in v[1] and sum(1 for u in walk_stmts(body) if u.k == 'assign' and u.target == v) >= 1
+        others = [v2 for t2, v2 in pairs if t2 != t]
+        if local and t[1] not in mentioned and v not in others and t[1] not in ren.values() and len(pairs) == len({p_[0] for p_ in pairs}):
+            ren[v[1]] = t
+        else:
+            out_tail.append(S('assign', use.line, target=t, value=v, aug=None))
+    if len(out_tail) > 1 and len(pairs) > 1:
+        # several components still copied: keep the simultaneous tuple assignment (the targets may occur in the values)
+        return body + [S('assign', use.line, target=tgt, value=V, aug=None)] if not ren else _rename(body, ren) + [S('assign', use.line, target=('tuple', tuple(t for t, v in pairs if v[0] != 'var' or v[1] not in ren)),
+                                                                                                    value=('tuple', tuple(subst_vars(v, ren) for t, v in pairs if v[0] != 'var' or v[1] not in ren)), aug=None)]
+    return _rename(body, ren) + [map_stmt(t_, lambda e: subst_vars(e, ren)) for t_ in out_tail]
+
+
+def _rename(body, ren):
+    if not ren:
+        return body
+    return [map_stmt(t, lambda e: subst_vars(e, ren)) for t in body]
 
 
 class Expander:
@@ -267,7 +327,7 @@ class Expander:
                     body, rv = self.instantiate(v, info, True, s.line, stack)
                     d = dict(s.d)
                     d['value' if s.k != 'decl' else 'init'] = rv
-                    return body + [S(s.k, s.line, **d)]
+                    return _forward_result(body, S(s.k, s.line, **d), rv)
         except NotInlinable:
             pass
         # helper calls in expression position: only helpers that reduce to one expression
